@@ -82,6 +82,21 @@ def _decorators(fn: ast.FunctionDef) -> List[str]:
     return out
 
 
+_NEGATE = {ast.Eq: ast.NotEq, ast.NotEq: ast.Eq, ast.Is: ast.IsNot, ast.IsNot: ast.Is, ast.In: ast.NotIn,
+           ast.NotIn: ast.In, ast.Lt: ast.GtE, ast.GtE: ast.Lt, ast.Gt: ast.LtE, ast.LtE: ast.Gt}
+
+
+def attr_path_(e: ast.AST) -> Optional[Tuple[str, ...]]:
+    parts: List[str] = []
+    while isinstance(e, ast.Attribute):
+        parts.append(e.attr)
+        e = e.value
+    if isinstance(e, ast.Name):
+        parts.append(e.id)
+        return tuple(reversed(parts))
+    return None
+
+
 def _set_loc(node: ast.AST, at: ast.AST) -> ast.AST:
     for n in ast.walk(node):
         if isinstance(n, (ast.expr, ast.stmt, ast.arg, ast.keyword, ast.excepthandler, ast.alias,
@@ -190,11 +205,22 @@ def _free_names(e: ast.AST) -> Set[str]:
     return out2
 
 
-def _purity(e: ast.AST, stable: Set[str]) -> int:
+def _purity(e: ast.AST, stable: Set[str], frozen: Optional[Tuple[str, Set[str]]] = None) -> int:
     """0: names (that never change)/constants/operators only; 1: also reads attributes, items,
-    lengths; 2: calls or anything else"""
+    lengths; 2: calls or anything else.  ``frozen`` = (self name, attributes of self that are only
+    ever assigned in constructors): reading one of those is as stable as reading a name."""
     worst = 0
+    skip: Set[int] = set()
+    if frozen is not None:
+        for n in ast.walk(e):
+            # x.attr with attr only ever assigned in constructors and x a name that does not change
+            if isinstance(n, ast.Attribute) and isinstance(n.value, ast.Name) \
+                    and n.attr in frozen[1] and n.value.id in stable:
+                skip.add(id(n))
+                skip.add(id(n.value))
     for n in [e] + list(ast.walk(e)):
+        if id(n) in skip:
+            continue
         if isinstance(n, ast.Name):
             if n.id not in stable:
                 worst = max(worst, 1)
@@ -331,11 +357,44 @@ class Normaliser:
         self.style: Dict[str, int] = dict(self.vocab.get("call_style") or {})
 
     # ------------------------------------------------------------------ scan
+    def _init_only_attrs(self) -> Set[str]:
+        """attribute names that are only ever assigned on the first parameter of a constructor
+        (``__init__`` / ``__set_name__`` / ``__new__``): they do not change afterwards"""
+        inside: Set[str] = set()
+        outside: Set[str] = set()
+        for tree in self.trees.values():
+            for fn in [n for n in ast.walk(tree) if isinstance(n, ast.FunctionDef)]:
+                ctor = fn.name in ("__init__", "__set_name__", "__new__")
+                me = fn.args.args[0].arg if fn.args.args else None
+                for n in _walk_scope(fn):
+                    if isinstance(n, ast.Attribute) and isinstance(n.ctx, (ast.Store, ast.Del)):
+                        if ctor and isinstance(n.value, ast.Name) and n.value.id == me:
+                            inside.add(n.attr)
+                        else:
+                            outside.add(n.attr)
+                    elif isinstance(n, ast.Call) and isinstance(n.func, ast.Name) and n.func.id in ("setattr", "delattr") \
+                            and len(n.args) >= 2 and isinstance(n.args[1], ast.Constant):
+                        outside.add(str(n.args[1].value))
+            for n in tree.body:
+                for x in ast.walk(n):
+                    if isinstance(x, ast.ClassDef):
+                        for st in x.body:
+                            if isinstance(st, (ast.Assign, ast.AnnAssign)):
+                                for t in (st.targets if isinstance(st, ast.Assign) else [st.target]):
+                                    if isinstance(t, ast.Name):
+                                        outside.add(t.id)     # class-level attribute / descriptor
+        # attributes of immutable library values the package reads (range / slice bounds, the
+        # fields of an intervaltree.Interval named tuple)
+        return (inside - outside) | {"start", "stop", "step", "begin", "end", "data"}
+
     def scan(self) -> None:
         self.defs: Dict[str, List[Helper]] = {}       # simple name -> definitions anywhere
         self.class_names: Set[str] = set()
         self.module_funcs: Dict[Tuple[str, str], Helper] = {}
         self.imports: Dict[str, Dict[str, Tuple[str, str]]] = {}
+        self.class_bases: Dict[str, List[str]] = {}
+        self.class_methods: Dict[str, Dict[str, Helper]] = {}
+        self.class_by_simple: Dict[str, str] = {}
         for mod, tree in self.trees.items():
             imp: Dict[str, Tuple[str, str]] = {}
             for st in ast.walk(tree):
@@ -348,9 +407,19 @@ class Normaliser:
                 for st in stmts:
                     if isinstance(st, ast.ClassDef):
                         self.class_names.add(st.name)
-                        visit(st.body, (cls + "." if cls else "") + st.name)
+                        q = (cls + "." if cls else "") + st.name
+                        bases = []
+                        for b in st.bases:
+                            p_ = attr_path_(b.value if isinstance(b, ast.Subscript) else b)
+                            if p_:
+                                bases.append(p_[-1])
+                        self.class_bases[q] = bases
+                        self.class_by_simple.setdefault(st.name, q)
+                        visit(st.body, q)
                     elif isinstance(st, ast.FunctionDef):
                         h = Helper(mod, cls, st, stmts)
+                        if cls is not None:
+                            self.class_methods.setdefault(cls, {})[st.name] = h
                         self.defs.setdefault(st.name, []).append(h)
                         if cls is None:
                             self.module_funcs[(mod, st.name)] = h
@@ -368,7 +437,7 @@ class Normaliser:
         if h.other_deco:
             return False
         a = h.node.args
-        if a.vararg or a.kwarg or a.posonlyargs:
+        if a.kwarg or a.posonlyargs:
             return False
         if len(self.defs.get(n, [])) != 1:
             return False                      # overridden or ambiguous
@@ -402,6 +471,33 @@ class Normaliser:
             if h is None or not self.is_candidate(h):
                 return None
             return h, None
+        if isinstance(f, ast.Attribute) and isinstance(f.value, ast.Call) and isinstance(f.value.func, ast.Name) \
+                and f.value.func.id == "super" and not f.value.args and caller_cls is not None:
+            # super().m(...): the method a base class defines, when that method is not part of
+            # the pinned tree's vocabulary (a method pulled up into a base class)
+            cur_fn = getattr(self, "_cur_fn", None)
+            if cur_fn is None or not cur_fn.args.args:
+                return None
+            seen: Set[str] = set()
+            todo = list(self.class_bases.get(caller_cls, []))
+            while todo:
+                b = todo.pop(0)
+                q = self.class_by_simple.get(b)
+                if q is None or q in seen:
+                    continue
+                seen.add(q)
+                h2 = self.class_methods.get(q, {}).get(f.attr)
+                if h2 is not None:
+                    if self.known is None or h2.key in self.known or h2.other_deco or h2.static or h2.classmethod \
+                            or h2.node.args.vararg or h2.node.args.kwarg:
+                        return None
+                    for x in _walk_scope(h2.node):
+                        if isinstance(x, (ast.Global, ast.Nonlocal)) or (
+                                isinstance(x, ast.Call) and isinstance(x.func, ast.Name) and x.func.id == "super"):
+                            return None
+                    return h2, ast.Name(id=cur_fn.args.args[0].arg, ctx=ast.Load())
+                todo = list(self.class_bases.get(q, [])) + todo
+            return None
         if isinstance(f, ast.Attribute):
             hs = self.defs.get(f.attr, [])
             if len(hs) != 1 or hs[0].cls is None or not self.is_candidate(hs[0]):
@@ -428,6 +524,25 @@ class Normaliser:
         return None
 
     def _bind(self, h: Helper, call: ast.Call, recv: Optional[ast.expr]) -> Optional[Dict[str, ast.expr]]:
+        va = h.node.args.vararg
+        if va is not None:
+            # f(a, *rest) calling  def f(p, *args): only the plain pass-through is understood
+            n_fixed = len(h.node.args.args) - (1 if recv is not None else 0)
+            extra = call.args[n_fixed:]
+            if len(extra) != 1 or not isinstance(extra[0], ast.Starred) or not isinstance(extra[0].value, ast.Name) \
+                    or any(isinstance(a, ast.Starred) for a in call.args[:n_fixed]) or any(k.arg is None for k in call.keywords):
+                return None
+            fake = ast.Call(func=call.func, args=list(call.args[:n_fixed]), keywords=call.keywords)
+            saved = h.node.args.vararg
+            h.node.args.vararg = None
+            try:
+                out0 = self._bind(h, fake, recv)
+            finally:
+                h.node.args.vararg = saved
+            if out0 is None:
+                return None
+            out0[va.arg] = extra[0].value
+            return out0
         if any(isinstance(a, ast.Starred) for a in call.args) or any(k.arg is None for k in call.keywords):
             return None
         params = [a.arg for a in h.node.args.args]
@@ -570,6 +685,7 @@ class Normaliser:
 
     def _inline_in_function(self, mod: str, fn: ast.FunctionDef, cls: Optional[str]) -> bool:
         changed = False
+        self._cur_fn = fn
 
         def splice_block(stmts: List[ast.stmt]) -> List[ast.stmt]:
             nonlocal changed
@@ -584,6 +700,8 @@ class Normaliser:
                     for hd in st.handlers:
                         hd.body = splice_block(hd.body)
                 rep = self._splice_stmt(mod, fn, cls, st)
+                if rep is None:
+                    rep = self._hoist(mod, fn, cls, st)
                 if rep is not None:
                     changed = True
                     out.extend(rep)
@@ -612,6 +730,69 @@ class Normaliser:
             return "assign", st.value
         return None
 
+    def _hoist(self, mod: str, fn: ast.FunctionDef, cls: Optional[str], st: ast.stmt) -> Optional[List[ast.stmt]]:
+        """``return f(helper(x))`` -> ``t = helper(x)`` / ``return f(t)`` when the helper call is
+        the first thing the statement evaluates that can have an effect, and it is evaluated
+        exactly once; the temporary is spliced by the caller (or put back by N2)"""
+        if not isinstance(st, (ast.Return, ast.Assign, ast.Expr, ast.AugAssign, ast.AnnAssign)):
+            return None
+        root = st.value if not isinstance(st, ast.Expr) else st.value
+        if root is None:
+            return None
+        _renumber(st)
+        once = _once_positions(root)
+        for c in sorted((n for n in ast.walk(root) if isinstance(n, ast.Call)), key=_pos):
+            if c is root and isinstance(st, (ast.Return, ast.Assign, ast.Expr, ast.AnnAssign)):
+                continue            # the whole value: _splice_stmt's business
+            if id(c) not in once:
+                continue
+            r = self._resolve(mod, c, cls)
+            if r is None:
+                continue
+            h, recv = r
+            if h.node is fn or h.generator or self._prefers_closure(mod, fn, h):
+                continue
+            hb = _body_wo_doc(h.node)
+            if len(hb) == 1 and isinstance(hb[0], ast.Return):
+                continue            # expression-level
+            # nothing with an effect may be evaluated before it in this statement
+            early = [n for n in ast.walk(root) if isinstance(n, ast.Call) and n is not c and _before(n, c)
+                     and not _contains(n, c) and not (isinstance(n.func, ast.Name) and n.func.id in PURE_CALLS)]
+            if early:
+                continue
+            taken = getattr(fn, "_taken", None)
+            if taken is None:
+                taken = _all_names(fn)
+                fn._taken = taken  # type: ignore[attr-defined]
+            i = 1
+            while "%s_result%d" % (h.node.name.strip("_"), i) in taken:
+                i += 1
+            nm = "%s_result%d" % (h.node.name.strip("_"), i)
+            taken.add(nm)
+            tmp = ast.Assign(targets=[ast.Name(id=nm, ctx=ast.Store())], value=c)
+            ast.copy_location(tmp, st)
+            _set_loc(tmp.targets[0], st)
+
+            class R(ast.NodeTransformer):
+                def visit_Call(self, node: ast.Call) -> ast.AST:
+                    if node is c:
+                        return ast.copy_location(ast.Name(id=nm, ctx=ast.Load()), node)
+                    return self.generic_visit(node)
+            new_st = R().visit(st)
+            spliced = self._splice_stmt(mod, fn, cls, tmp)
+            if spliced is None:
+                # put it back: nothing gained
+                class U(ast.NodeTransformer):
+                    def visit_Name(self, node: ast.Name) -> ast.AST:
+                        if node.id == nm and isinstance(node.ctx, ast.Load):
+                            return c
+                        return node
+                U().visit(new_st)
+                taken.discard(nm)
+                continue
+            return spliced + [new_st]
+        return None
+
     def _splice_stmt(self, mod: str, fn: ast.FunctionDef, cls: Optional[str], st: ast.stmt) -> Optional[List[ast.stmt]]:
         co = self._call_of(st)
         if co is None:
@@ -631,6 +812,10 @@ class Normaliser:
         hb = _body_wo_doc(h.node)
         if len(hb) == 1 and isinstance(hb[0], ast.Return) and hb[0].value is not None and ctx != "yieldfrom":
             return None                 # expression-level inlining handles it (keeps the statement)
+        if h.generator and ctx == "return" and not _is_generator(fn):
+            # ``return self._gen(...)``: the caller hands out the helper's generator; spliced in,
+            # the caller is that generator (same elements, same laziness of the body)
+            ctx = "yieldfrom"
         if h.generator != (ctx == "yieldfrom"):
             return None
         inst = self._instantiate(h, binding, fn, st)
@@ -692,6 +877,25 @@ class Normaliser:
             return Normaliser._always_exits(last.body) and Normaliser._always_exits(last.orelse)
         return False
 
+    @staticmethod
+    def _body_as_expr(stmts: List[ast.stmt]) -> Optional[ast.expr]:
+        """``if c: return a`` / ``return b``  ->  ``a if c else b`` (None when the body is more
+        than tests and returns)"""
+        if not stmts:
+            return ast.Constant(value=None)
+        st, rest = stmts[0], stmts[1:]
+        if isinstance(st, ast.Return):
+            return st.value if st.value is not None else ast.Constant(value=None)
+        if isinstance(st, (ast.Pass, ast.Assert)) or (isinstance(st, ast.Expr) and isinstance(st.value, ast.Constant)):
+            return Normaliser._body_as_expr(rest)
+        if isinstance(st, ast.If):
+            a = Normaliser._body_as_expr(list(st.body) + ([] if Normaliser._always_exits(st.body) else rest))
+            b = Normaliser._body_as_expr(list(st.orelse) + ([] if st.orelse and Normaliser._always_exits(st.orelse) else rest))
+            if a is None or b is None:
+                return None
+            return ast.IfExp(test=st.test, body=a, orelse=b)
+        return None
+
     def _prefers_closure(self, mod: str, fn: ast.FunctionDef, h: Helper) -> bool:
         """the pinned tree has a nested function of this name in this caller: the helper is that
         nested function moved out, and becomes it again"""
@@ -719,6 +923,11 @@ class Normaliser:
             hb = _body_wo_doc(h.node)
             if len(hb) == 1 and isinstance(hb[0], ast.Return) and hb[0].value is not None and not h.generator:
                 return hb[0].value
+            if not h.generator and any(isinstance(x, ast.If) for x in hb) and \
+                    not any(isinstance(x, ast.Raise) for s_ in hb for x in ast.walk(s_)):
+                e = norm._body_as_expr(copy.deepcopy(hb))
+                if e is not None:
+                    return ast.fix_missing_locations(ast.copy_location(e, h.node))
             return None
 
         class T(ast.NodeTransformer):
@@ -751,6 +960,8 @@ class Normaliser:
                     norm.report.inlined.append("%s -> %s (as lambda)" % (h.key, fn.name))
                     norm._inlined_keys.add(h.key)
                     return lam
+                if not norm._allow_closures:
+                    return node
                 nm = as_closure(h)
                 if nm is None:
                     return node
@@ -801,6 +1012,8 @@ class Normaliser:
                     norm._inlined_keys.add(h.key)
                     return new
                 # closure-level: the helper becomes a nested function of the caller
+                if not norm._allow_closures:
+                    return node
                 params = [x.arg for x in h.node.args.args]
                 if recv is not None:
                     # the nested copy sees the receiver through the enclosing scope, under the
@@ -872,6 +1085,24 @@ class Normaliser:
             def visit_Lambda(self, node: ast.Lambda) -> ast.AST:
                 return node
 
+            def visit_Call(self, node: ast.Call) -> ast.AST:
+                nonlocal changed
+                self.generic_visit(node)
+                f_ = node.func
+                nm = f_.attr if isinstance(f_, ast.Attribute) else f_.id if isinstance(f_, ast.Name) else None
+                if nm == "attrgetter" and len(node.args) == 1 and not node.keywords and \
+                        isinstance(node.args[0], ast.Constant) and isinstance(node.args[0].value, str) and \
+                        all(p_.isidentifier() for p_ in node.args[0].value.split(".")):
+                    body: ast.expr = ast.Name(id="self", ctx=ast.Load())
+                    for p_ in node.args[0].value.split("."):
+                        body = ast.Attribute(value=body, attr=p_, ctx=ast.Load())
+                    lam = ast.Lambda(args=ast.arguments(posonlyargs=[], args=[ast.arg(arg="self")], kwonlyargs=[],
+                                                        kw_defaults=[], defaults=[]), body=body)
+                    changed = True
+                    norm.report.shapes += 1
+                    return _set_loc(lam, node)
+                return node
+
             def visit_Name(self, node: ast.Name) -> ast.AST:
                 nonlocal changed
                 if not isinstance(node.ctx, ast.Load):
@@ -904,7 +1135,8 @@ class Normaliser:
 
     def inline_helpers(self) -> None:
         self._inlined_keys: Set[str] = set()
-        for _ in range(4):
+        self._allow_closures = False
+        for round_ in range(8):
             self.scan()
             any_change = False
             for mod, tree in self.trees.items():
@@ -925,7 +1157,11 @@ class Normaliser:
                 if self._inline_toplevel(mod, tree):
                     any_change = True
             if not any_change:
-                break
+                if self._allow_closures:
+                    break
+                # statement- and expression-level inlining have reached their fixpoint: what is
+                # left becomes a nested function of its caller, then the cheaper levels run again
+                self._allow_closures = True
         # drop helper definitions nothing refers to any more
         self.scan()
         for hs in list(self.defs.values()):
@@ -1092,6 +1328,7 @@ class Normaliser:
         """
         changed = False
         rep = self.report
+        _renumber(fn)
         stores: Dict[str, int] = {}
         for n in _walk_scope(fn):
             if isinstance(n, ast.Name) and isinstance(n.ctx, (ast.Store, ast.Del)):
@@ -1193,6 +1430,117 @@ class Normaliser:
                             changed = True
                             rep.shapes += 1
                             continue
+                # if c: pass / else: S   ->   if not c: S
+                if isinstance(st, ast.If) and st.orelse and all(isinstance(x, ast.Pass) for x in st.body):
+                    t_ = st.test
+                    if isinstance(t_, ast.Compare) and len(t_.ops) == 1 and type(t_.ops[0]) in _NEGATE:
+                        neg: ast.expr = ast.Compare(left=t_.left, ops=[_NEGATE[type(t_.ops[0])]()], comparators=t_.comparators)
+                    elif isinstance(t_, ast.UnaryOp) and isinstance(t_.op, ast.Not):
+                        neg = t_.operand
+                    else:
+                        neg = ast.UnaryOp(op=ast.Not(), operand=t_)
+                    st.test = ast.copy_location(neg, t_)
+                    st.body, st.orelse = st.orelse, []
+                    out.extend(block([st]))
+                    changed = True
+                    rep.shapes += 1
+                    continue
+                # for _ in range(K): S  with a small literal K and S not using the counter
+                if isinstance(st, ast.For) and not st.orelse and isinstance(st.target, ast.Name) and \
+                        isinstance(st.iter, ast.Call) and isinstance(st.iter.func, ast.Name) and st.iter.func.id == "range" \
+                        and len(st.iter.args) == 1 and isinstance(st.iter.args[0], ast.Constant) \
+                        and isinstance(st.iter.args[0].value, int) and 0 < st.iter.args[0].value <= 4 \
+                        and not any(isinstance(n_, (ast.Break, ast.Continue)) for n_ in ast.walk(st)) \
+                        and not any(isinstance(n_, ast.Name) and n_.id == st.target.id for b_ in st.body for n_ in ast.walk(b_)) \
+                        and not any(isinstance(n_, ast.Name) and n_.id == st.target.id and isinstance(n_.ctx, ast.Load)
+                                    for n_ in ast.walk(fn)):
+                    for _k in range(st.iter.args[0].value):
+                        out.extend(block(copy.deepcopy(st.body)))
+                    changed = True
+                    rep.shapes += 1
+                    continue
+                # for x in chain.from_iterable(e for t in it): S   ->   for t in it: for x in e: S
+                if isinstance(st, ast.For) and not st.orelse and isinstance(st.iter, ast.Call) and \
+                        attr_path_(st.iter.func) in (("itertools", "chain", "from_iterable"), ("chain", "from_iterable")) \
+                        and len(st.iter.args) == 1 and not st.iter.keywords and \
+                        isinstance(st.iter.args[0], (ast.GeneratorExp, ast.ListComp)) and \
+                        len(st.iter.args[0].generators) == 1 and not st.iter.args[0].generators[0].is_async \
+                        and not any(isinstance(n_, ast.Break) for n_ in ast.walk(st)):
+                    g_ = st.iter.args[0].generators[0]
+                    inner: List[ast.stmt] = [ast.copy_location(ast.For(target=st.target, iter=st.iter.args[0].elt,
+                                                                       body=st.body, orelse=[]), st)]
+                    for cond in reversed(g_.ifs):
+                        inner = [ast.copy_location(ast.If(test=cond, body=inner, orelse=[]), st)]
+                    outer = ast.copy_location(ast.For(target=g_.target, iter=g_.iter, body=inner, orelse=[]), st)
+                    out.extend(block([outer]))
+                    changed = True
+                    rep.shapes += 1
+                    continue
+                # for x in itertools.chain(a, b, c): S   ->   one loop per iterable
+                if isinstance(st, ast.For) and not st.orelse and isinstance(st.iter, ast.Call) and \
+                        (attr_path_(st.iter.func) in (("itertools", "chain"), ("chain",))) and len(st.iter.args) >= 2 \
+                        and not st.iter.keywords and not any(isinstance(a_, ast.Starred) for a_ in st.iter.args) \
+                        and not any(isinstance(n_, ast.Break) for n_ in ast.walk(st)) \
+                        and all(_purity(a_, set()) < 2 for a_ in st.iter.args):
+                    loops: List[ast.stmt] = []
+                    for a_ in st.iter.args:
+                        loops.append(ast.copy_location(ast.For(target=copy.deepcopy(st.target), iter=a_,
+                                                               body=copy.deepcopy(st.body), orelse=[]), st))
+                    out.extend(block(loops))
+                    changed = True
+                    rep.shapes += 1
+                    continue
+                # a = b = e   ->   a = e ; b = a      (a a plain name)
+                if isinstance(st, ast.Assign) and len(st.targets) > 1:
+                    names = [t for t in st.targets if isinstance(t, ast.Name)]
+                    if names:
+                        first = names[0]
+                        out.append(ast.copy_location(ast.Assign(targets=[first], value=st.value), st))
+                        for t in st.targets:
+                            if t is not first:
+                                out.append(ast.copy_location(ast.Assign(
+                                    targets=[t], value=ast.copy_location(ast.Name(id=first.id, ctx=ast.Load()), st)), st))
+                        changed = True
+                        rep.shapes += 1
+                        continue
+                # if (n := e) ...:   ->   n = e ; if n ...:
+                hdrs = _headers(st)
+                if hdrs and not isinstance(st, (ast.While,)):
+                    walrus = [n_ for h_ in hdrs for n_ in ast.walk(h_) if isinstance(n_, ast.NamedExpr)]
+                    if walrus:
+                        w = min(walrus, key=_pos)
+                        once: Set[int] = set()
+                        for h_ in hdrs:
+                            once |= _once_positions(h_)
+                        early = [n_ for h_ in hdrs for n_ in ast.walk(h_)
+                                 if isinstance(n_, (ast.Call, ast.NamedExpr)) and n_ is not w and _before(n_, w)
+                                 and not _contains(n_, w) and not _contains(w, n_)
+                                 and not (isinstance(n_, ast.Call) and isinstance(n_.func, ast.Name) and n_.func.id in PURE_CALLS)]
+                        reads_before = [n_ for h_ in hdrs for n_ in ast.walk(h_) if isinstance(n_, ast.Name)
+                                        and n_.id == w.target.id and _before(n_, w) and n_ is not w.target]
+                        if id(w) in once and not early and not reads_before:
+                            pre = ast.copy_location(ast.Assign(targets=[ast.copy_location(
+                                ast.Name(id=w.target.id, ctx=ast.Store()), w)], value=w.value), st)
+
+                            class W(ast.NodeTransformer):
+                                def visit_NamedExpr(self, node: ast.NamedExpr) -> ast.AST:
+                                    if node is w:
+                                        return ast.copy_location(ast.Name(id=w.target.id, ctx=ast.Load()), node)
+                                    return self.generic_visit(node)
+                            if isinstance(st, (ast.If, ast.For, ast.With)):
+                                for fld in ("test", "iter"):
+                                    if hasattr(st, fld):
+                                        setattr(st, fld, W().visit(getattr(st, fld)))
+                                if isinstance(st, ast.With):
+                                    st.items[0].context_expr = W().visit(st.items[0].context_expr)
+                                new_st: ast.stmt = st
+                            else:
+                                new_st = W().visit(st)
+                            out.append(pre)
+                            out.extend(block([new_st]))
+                            changed = True
+                            rep.shapes += 1
+                            continue
                 # a, b = x, y
                 if isinstance(st, ast.Assign) and len(st.targets) == 1 and isinstance(st.targets[0], ast.Tuple) \
                         and isinstance(st.value, ast.Tuple) and len(st.value.elts) == len(st.targets[0].elts) \
@@ -1256,6 +1604,72 @@ class Normaliser:
                     changed = True
                     rep.shapes += 1
                     return ast.copy_location(ast.Attribute(value=node.args[0], attr=node.args[1].value, ctx=ast.Load()), node)
+                fname = f.attr if isinstance(f, ast.Attribute) else f.id if isinstance(f, ast.Name) else None
+                plain = not node.keywords and not any(isinstance(a_, ast.Starred) for a_ in node.args)
+                qual_ok = isinstance(f, ast.Name) or (isinstance(f, ast.Attribute) and isinstance(f.value, ast.Name)
+                                                      and f.value.id in ("operator", "itertools", "functools"))
+
+                def mk_lambda(body: ast.expr) -> ast.Lambda:
+                    lam_ = ast.Lambda(args=ast.arguments(posonlyargs=[], args=[ast.arg(arg="x_")], kwonlyargs=[],
+                                                         kw_defaults=[], defaults=[]), body=body)
+                    return _set_loc(lam_, node)  # type: ignore[return-value]
+                # operator.attrgetter('a.b') / itemgetter(k) / methodcaller('m', args)
+                if qual_ok and fname == "attrgetter" and plain and len(node.args) == 1 and \
+                        isinstance(node.args[0], ast.Constant) and isinstance(node.args[0].value, str) and \
+                        all(p_.isidentifier() for p_ in node.args[0].value.split(".")):
+                    body: ast.expr = ast.Name(id="x_", ctx=ast.Load())
+                    for p_ in node.args[0].value.split("."):
+                        body = ast.Attribute(value=body, attr=p_, ctx=ast.Load())
+                    changed = True
+                    rep.shapes += 1
+                    return mk_lambda(body)
+                if qual_ok and fname == "itemgetter" and plain and len(node.args) == 1 and \
+                        isinstance(node.args[0], ast.Constant):
+                    changed = True
+                    rep.shapes += 1
+                    return mk_lambda(ast.Subscript(value=ast.Name(id="x_", ctx=ast.Load()), slice=node.args[0], ctx=ast.Load()))
+                if qual_ok and fname == "methodcaller" and node.args and isinstance(node.args[0], ast.Constant) and \
+                        isinstance(node.args[0].value, str) and node.args[0].value.isidentifier() and \
+                        all(Normaliser._atomic(a_) for a_ in node.args[1:]) and \
+                        all(k.arg is not None and Normaliser._atomic(k.value) for k in node.keywords):
+                    call = ast.Call(func=ast.Attribute(value=ast.Name(id="x_", ctx=ast.Load()), attr=node.args[0].value,
+                                                       ctx=ast.Load()), args=list(node.args[1:]), keywords=list(node.keywords))
+                    changed = True
+                    rep.shapes += 1
+                    return mk_lambda(call)
+                # map(f, it) / filter(f, it) / starmap(f, it) -> generator expressions
+                if isinstance(f, ast.Name) and f.id == "map" and plain and len(node.args) == 2:
+                    fn_ = node.args[0]
+                    lam2 = fn_ if isinstance(fn_, ast.Lambda) else lambdas.get(fn_.id) if isinstance(fn_, ast.Name) else None
+                    tgt = ast.Name(id="x_", ctx=ast.Store())
+                    callx = ast.Call(func=fn_, args=[ast.Name(id="x_", ctx=ast.Load())], keywords=[])
+                    elt: Optional[ast.expr] = None
+                    if lam2 is not None:
+                        elt = beta(lam2, callx)
+                    elif Normaliser._atomic(fn_):
+                        elt = callx
+                    if elt is not None and "x_" not in _free_names(node.args[1]) and \
+                            (lam2 is None or "x_" not in _free_names(lam2)):
+                        gen = ast.GeneratorExp(elt=elt, generators=[ast.comprehension(target=tgt, iter=node.args[1], ifs=[], is_async=0)])
+                        changed = True
+                        rep.shapes += 1
+                        return _set_loc(gen, node)
+                if isinstance(f, ast.Name) and f.id == "filter" and plain and len(node.args) == 2 and \
+                        "x_" not in _free_names(node.args[1]):
+                    fn_ = node.args[0]
+                    cond: Optional[ast.expr] = None
+                    if isinstance(fn_, ast.Constant) and fn_.value is None:
+                        cond = ast.Name(id="x_", ctx=ast.Load())
+                    elif isinstance(fn_, ast.Lambda):
+                        cond = beta(fn_, ast.Call(func=fn_, args=[ast.Name(id="x_", ctx=ast.Load())], keywords=[]))
+                    elif Normaliser._atomic(fn_):
+                        cond = ast.Call(func=fn_, args=[ast.Name(id="x_", ctx=ast.Load())], keywords=[])
+                    if cond is not None:
+                        gen = ast.GeneratorExp(elt=ast.Name(id="x_", ctx=ast.Load()), generators=[ast.comprehension(
+                            target=ast.Name(id="x_", ctx=ast.Store()), iter=node.args[1], ifs=[cond], is_async=0)])
+                        changed = True
+                        rep.shapes += 1
+                        return _set_loc(gen, node)
                 lam = f if isinstance(f, ast.Lambda) else lambdas.get(f.id) if isinstance(f, ast.Name) else None
                 if lam is not None:
                     new = beta(lam, node)
@@ -1312,6 +1726,71 @@ class Normaliser:
             changed = True
             rep.shapes += 1
         return changed
+
+    # ------------------------------------------------------------------ N2a versions
+    def versions(self, fn: ast.FunctionDef) -> bool:
+        """a name rebound by plain assignments in the function's top-level statement sequence
+        (``x = f(x)``) becomes one name per binding: straight-line single assignment"""
+        params = {a.arg for a in fn.args.posonlyargs + fn.args.args + fn.args.kwonlyargs}
+        if fn.args.vararg:
+            params.add(fn.args.vararg.arg)
+        if fn.args.kwarg:
+            params.add(fn.args.kwarg.arg)
+        escaping: Set[str] = set()
+        for n in _walk_scope(fn):
+            if isinstance(n, (ast.FunctionDef, ast.Lambda)):
+                escaping |= {m.id for m in ast.walk(n) if isinstance(m, ast.Name)}
+            elif isinstance(n, (ast.Global, ast.Nonlocal)):
+                escaping |= set(n.names)
+            elif isinstance(n, CompT):
+                # comprehension bodies run later only for generators; keep it simple
+                if isinstance(n, ast.GeneratorExp):
+                    escaping |= {m.id for m in ast.walk(n) if isinstance(m, ast.Name)}
+        top_stores: Dict[str, int] = {}
+        for st in fn.body:
+            if isinstance(st, ast.Assign) and len(st.targets) == 1 and isinstance(st.targets[0], ast.Name):
+                top_stores[st.targets[0].id] = top_stores.get(st.targets[0].id, 0) + 1
+        all_stores: Dict[str, int] = {}
+        for n in _walk_scope(fn):
+            if isinstance(n, ast.Name) and isinstance(n.ctx, (ast.Store, ast.Del)):
+                all_stores[n.id] = all_stores.get(n.id, 0) + 1
+            elif isinstance(n, ast.ExceptHandler) and n.name:
+                all_stores[n.name] = all_stores.get(n.name, 0) + 5
+        cands = [n for n, c in top_stores.items() if all_stores.get(n) == c and n not in escaping
+                 and (c >= 2 or (n in params and c >= 1))]
+        if not cands:
+            return False
+        taken = getattr(fn, "_taken", None)
+        if taken is None:
+            taken = _all_names(fn)
+            fn._taken = taken  # type: ignore[attr-defined]
+        for nm in cands:
+            cur = nm if nm in params else None
+            ver = 0
+            for idx, st in enumerate(fn.body):
+                is_def = isinstance(st, ast.Assign) and len(st.targets) == 1 and \
+                    isinstance(st.targets[0], ast.Name) and st.targets[0].id == nm
+                if cur is not None and cur != nm:
+                    sub = _Subst({nm: ast.Name(id=cur, ctx=ast.Load())})
+                    if is_def:
+                        st.value = sub.visit(st.value)          # type: ignore[attr-defined]
+                    else:
+                        fn.body[idx] = sub.visit(st)
+                if is_def:
+                    if cur is None and ver == 0:
+                        cur = nm            # the first binding of a local keeps the name
+                        ver = 1
+                        continue
+                    ver += 1
+                    new = "%s_v%d" % (nm, ver)
+                    while new in taken:
+                        ver += 1
+                        new = "%s_v%d" % (nm, ver)
+                    taken.add(new)
+                    st.targets[0] = ast.copy_location(ast.Name(id=new, ctx=ast.Store()), st.targets[0])  # type: ignore[attr-defined]
+                    cur = new
+            self.report.temporaries += 0
+        return True
 
     # ------------------------------------------------------------------ N2
     def copyprop(self, fn: ast.FunctionDef) -> bool:
@@ -1377,6 +1856,7 @@ class Normaliser:
 
         changed = False
         for _ in range(400):
+            _renumber(fn)
             if not find(fn.body):
                 break
             changed = True
@@ -1392,7 +1872,17 @@ class Normaliser:
                     after.append((j, n))
         if len(after) != len(all_loads) or not after:
             return False
-        pur = _purity(val, stable - {tgt})
+        frozen = ("", self.init_only)
+        pur = _purity(val, stable - {tgt}, frozen)
+        # a bound method cached in a local (``write = stream.write``) and only ever called: looking
+        # the method up once or at every call is the same (nobody rebinds methods of live objects)
+        if pur == 1 and isinstance(val, ast.Attribute) and self._atomic(val) and \
+                isinstance(val.value, ast.Name) and val.value.id in stable:
+            callee_ids = {id(c.func) for c in ast.walk(fn) if isinstance(c, ast.Call)}
+            calls_only = all(id(n) in callee_ids for _j, n in after)
+            if calls_only and not any(isinstance(x, ast.Attribute) and isinstance(x.ctx, (ast.Store, ast.Del))
+                                      and x.attr == val.attr for x in ast.walk(fn)):
+                pur = 0
         last = max(j for j, _ in after)
         using = sorted({j for j, _ in after})
 
@@ -1428,6 +1918,10 @@ class Normaliser:
             st = stmts[j]
             if isinstance(st, ast.While):
                 return False
+            if isinstance(st, (ast.Assign, ast.AugAssign, ast.AnnAssign)):
+                tg_nodes = st.targets if isinstance(st, ast.Assign) else [st.target]
+                if any(_contains(t, use) for t in tg_nodes):
+                    return False        # targets are evaluated after the value
             once: Set[int] = set()
             for h in _headers(st):
                 once |= _once_positions(h)
@@ -1533,6 +2027,55 @@ class Normaliser:
         if changed:
             self.report.call_style += 1
 
+    # ------------------------------------------------------------------ N10 parameter names
+    def parameter_names(self) -> None:
+        """a private or nested function of the pinned tree whose parameters were renamed gets
+        its old parameter names back (alpha-renaming; keyword arguments at its call sites follow)"""
+        table = self.vocab.get("params")
+        if not table:
+            return
+        for mod, tree in self.trees.items():
+            def visit(stmts: List[ast.stmt], q: str, nested: bool) -> None:
+                for st in stmts:
+                    if isinstance(st, ast.ClassDef):
+                        visit(st.body, q + st.name + ".", nested)
+                    elif isinstance(st, ast.FunctionDef):
+                        key = "%s:%s%s" % (mod, q, st.name)
+                        private = st.name.startswith("_") and not (st.name.startswith("__") and st.name.endswith("__"))
+                        if key in table and (private or nested):
+                            self._rename_params(mod, st, table[key])
+                        visit(st.body, q + st.name + ".", True)
+                    elif isinstance(st, (ast.If, ast.For, ast.While, ast.With, ast.Try)):
+                        for fld in ("body", "orelse", "finalbody"):
+                            visit(getattr(st, fld, []) or [], q, nested)
+            visit(tree.body, "", False)
+
+    def _rename_params(self, mod: str, fn: ast.FunctionDef, want: List[str]) -> None:
+        a = fn.args
+        have = [x for x in a.posonlyargs + a.args + a.kwonlyargs]
+        if len(have) != len(want) or [x.arg for x in have] == want:
+            return
+        if have and want and have[0].arg in ("self", "cls") and have[0].arg != want[0]:
+            return
+        mapping = {x.arg: w for x, w in zip(have, want) if x.arg != w}
+        used = _all_names(fn)
+        if any(w in used and w not in mapping for w in mapping.values()):
+            return              # the old name now means something else here
+        ren = {k: ast.Name(id=v, ctx=ast.Load()) for k, v in mapping.items()}
+        for x in have:
+            if x.arg in mapping:
+                x.arg = mapping[x.arg]
+        sub = _Subst(ren)
+        fn.body = [sub.visit(s_) for s_ in fn.body]
+        # keyword arguments at the call sites
+        for tree in self.trees.values():
+            for c in ast.walk(tree):
+                if isinstance(c, ast.Call) and self._callee_name(c) == fn.name:
+                    for k in c.keywords:
+                        if k.arg in mapping:
+                            k.arg = mapping[k.arg]
+        self.report.shapes += 1
+
     # ------------------------------------------------------------------ N9 module constants
     def module_constants(self) -> None:
         """a private module-level name bound once to a literal, not part of the pinned tree's
@@ -1594,16 +2137,24 @@ class Normaliser:
 
     # ------------------------------------------------------------------ driver
     def run(self) -> Report:
+        self.init_only = self._init_only_attrs()
+        for tree in self.trees.values():
+            for c in [n for n in ast.walk(tree) if isinstance(n, ast.ClassDef)]:
+                for st in c.body:
+                    if isinstance(st, ast.FunctionDef) and "staticmethod" not in _decorators(st):
+                        st._is_method = True  # type: ignore[attr-defined]
         self.module_constants()
+        self.parameter_names()
         self.inline_helpers()
         for tree in self.trees.values():
             for fn in [n for n in ast.walk(tree) if isinstance(n, ast.FunctionDef)]:
                 for _ in range(8):
                     a = self.fold(fn)
                     b = self.if_assign(fn)
+                    v = self.versions(fn)
                     c = self.copyprop(fn)
                     d = self.shapes(fn)
-                    if not (a or b or c or d):
+                    if not (a or b or c or d or v):
                         break
         self.call_style()
         for tree in self.trees.values():
@@ -1619,7 +2170,27 @@ def _set_only_missing(new: ast.AST, at: ast.AST) -> None:
 
 
 def _pos(n: ast.AST) -> Tuple[int, int]:
+    o = getattr(n, "_ord", None)
+    if o is not None:
+        return (0, o)
     return (getattr(n, "lineno", 0), getattr(n, "col_offset", 0))
+
+
+def _renumber(root: ast.AST) -> None:
+    """evaluation-order index of every node under root (source positions are useless once code
+    from elsewhere has been spliced in at a call site)"""
+    k = 0
+    stack = [root]
+    while stack:
+        n = stack.pop()
+        n._ord = k  # type: ignore[attr-defined]
+        k += 1
+        kids = list(ast.iter_child_nodes(n))
+        if isinstance(n, ast.Assign):
+            kids = [n.value] + list(n.targets)          # the value is evaluated before the targets
+        elif isinstance(n, (ast.AugAssign, ast.AnnAssign)) and getattr(n, "value", None) is not None:
+            kids = [n.value] + [c for c in kids if c is not n.value]
+        stack.extend(reversed(kids))
 
 
 def _before(a: ast.AST, b: ast.AST) -> bool:
@@ -1662,6 +2233,7 @@ def _quiet_before(header: ast.AST, tgt: str) -> bool:
 def gen_vocab(root: Path) -> Dict[str, object]:
     pkg = root / "python" / "gtirb"
     funcs: List[str] = []
+    params: Dict[str, List[str]] = {}
     modnames: List[str] = []
     style: Dict[str, int] = {}
     for p in sorted(pkg.glob("*.py")):
@@ -1673,6 +2245,8 @@ def gen_vocab(root: Path) -> Dict[str, object]:
                     visit(st.body, q + st.name + ".")
                 elif isinstance(st, ast.FunctionDef):
                     funcs.append("%s:%s%s" % (p.stem, q, st.name))
+                    a = st.args
+                    params["%s:%s%s" % (p.stem, q, st.name)] = [x.arg for x in a.posonlyargs + a.args + a.kwonlyargs]
                     visit(st.body, q + st.name + ".")
                 elif isinstance(st, (ast.If, ast.For, ast.While, ast.With, ast.Try)):
                     for fld in ("body", "orelse", "finalbody"):
@@ -1690,7 +2264,7 @@ def gen_vocab(root: Path) -> Dict[str, object]:
                 style[nm] = max(style.get(nm, 0), len(c.args))
     return {"comment": "vocabulary of the pinned tree: function names that are not private helpers "
                        "to be inlined, and how many arguments each callee is passed positionally",
-            "functions": sorted(set(funcs)), "module_names": sorted(set(modnames)),
+            "functions": sorted(set(funcs)), "module_names": sorted(set(modnames)), "params": params,
             "call_style": dict(sorted(style.items()))}
 
 
